@@ -40,6 +40,7 @@ class Unit:
         self.notes = []
         self.ring_jobs = {}     # label -> job description
         self.lemma_prelude = ''  # spec text the lemma files need
+        self.close = ''          # text closing modules opened in parts
 
     # ---------------------------------------------------------------- text assembly
     def add(self, text):
@@ -106,7 +107,7 @@ class Unit:
         stm = "\n".join("#[verifier::external_body]\n" + l['head'] + "{}\n" for l in self.lemmas)
         return self.HEAD + "\n".join(self.parts) + \
             "\n// ---- generated lemma statements (proved in the lemma files of this unit) ----\n" + \
-            stm + "\n} // verus!\nfn main() {}\n"
+            stm + self.close + "\n} // verus!\nfn main() {}\n"
 
     def lemma_files(self, nbins=12):
         """[(suffix, text)]: lemma proofs bin-packed by size; every file is self-contained"""
@@ -162,12 +163,20 @@ def run_verus(path, timeout=600, rlimit=None, extra=()):
     if rlimit:
         cmd += ['--rlimit', str(rlimit)]
     t0 = time.time()
+    import signal
+    proc = subprocess.Popen(cmd, stdout=subprocess.PIPE, stderr=subprocess.PIPE, text=True, start_new_session=True)
     try:
-        r = subprocess.run(cmd, capture_output=True, text=True, timeout=timeout)
-        out, err, rc, to = r.stdout, r.stderr, r.returncode, False
-    except subprocess.TimeoutExpired as e:
-        out = e.stdout.decode() if isinstance(e.stdout, bytes) else (e.stdout or '')
-        err = e.stderr.decode() if isinstance(e.stderr, bytes) else (e.stderr or '')
+        out, err = proc.communicate(timeout=timeout)
+        rc, to = proc.returncode, False
+    except subprocess.TimeoutExpired:
+        try:
+            os.killpg(proc.pid, signal.SIGKILL)
+        except Exception:
+            pass
+        try:
+            out, err = proc.communicate(timeout=10)
+        except Exception:
+            out, err = '', ''
         rc, to = -9, True
     wall = time.time() - t0
     js = None
